@@ -1,5 +1,5 @@
 #!/venv/bin/python
-"""Merge known_findings.d/*.json into known_findings.json and mark the mechanisms repaired by a
+"""Merge tools/findings.d/*.json (the per-property fragments written while building) into known_findings.json and mark the mechanisms repaired by a
 `fix:` commit in /repo (tools/fixed.json: mechanism -> [commit, ...]) as status "fixed".
 Fixed entries suppress nothing; they are kept as the record `fixed: property=<id> <commit> <what failed>`."""
 import glob, json, os
@@ -7,7 +7,7 @@ ROOT = os.path.dirname(os.path.dirname(os.path.abspath(__file__)))
 fixed = json.load(open(os.path.join(ROOT, "tools", "fixed.json")))
 out = []
 seen = set()
-for f in sorted(glob.glob(os.path.join(ROOT, "known_findings.d", "*.json"))):
+for f in sorted(glob.glob(os.path.join(ROOT, "tools", "findings.d", "*.json"))):
     for e in json.load(open(f))["findings"]:
         if e["mechanism"] in seen:
             continue
@@ -19,7 +19,7 @@ for f in sorted(glob.glob(os.path.join(ROOT, "known_findings.d", "*.json"))):
             e["record"] = f"fixed: property={e['property']} {' '.join(fixed[e['mechanism']])} {e['what'][:160]}"
         out.append(e)
 doc = {
-    "_comment": "Genuine defects of alpha-unito/streamflow found by the checks, keyed by MECHANISM (never by seed or case hash). status=open entries are reported as KNOWN-FINDING lines and do not fail a check; status=fixed entries (repaired by the listed `fix:` commit in /repo) suppress nothing. Never written at run time. Source fragments: known_findings.d/ (merged by tools/merge_findings.py).",
+    "_comment": "Genuine defects of alpha-unito/streamflow found by the checks, keyed by MECHANISM (never by seed or case hash). status=open entries are reported as KNOWN-FINDING lines and do not fail a check; status=fixed entries (repaired by the listed `fix:` commit in /repo) suppress nothing. Never written at run time. Source fragments: tools/findings.d/ (merged by tools/merge_findings.py; not read at run time).",
     "findings": out,
 }
 json.dump(doc, open(os.path.join(ROOT, "known_findings.json"), "w"), indent=1)
